@@ -15,9 +15,19 @@ from checks.setjoin import call_join, gen_tables, tiny_scenarios
 MAXV = 6
 
 
+def _overlap(set1, set2):
+    return len(set(set1) & set(set2))
+
+
 def sim_function(meas):
-    from py_stringsimjoin.utils.simfunctions import get_sim_function
-    return get_sim_function(meas)
+    """The measure's similarity function as a user of the public API would pass it (py_stringmatching)."""
+    from py_stringmatching.similarity_measure.cosine import Cosine
+    from py_stringmatching.similarity_measure.dice import Dice
+    from py_stringmatching.similarity_measure.jaccard import Jaccard
+    from py_stringmatching.similarity_measure.overlap_coefficient import OverlapCoefficient
+    return {'JACCARD': lambda: Jaccard().get_raw_score, 'COSINE': lambda: Cosine().get_raw_score,
+            'DICE': lambda: Dice().get_raw_score, 'OVERLAP_COEFFICIENT': lambda: OverlapCoefficient().get_raw_score,
+            'OVERLAP': lambda: _overlap}[meas]()
 
 
 def keyed(out):
